@@ -128,7 +128,81 @@ def check_c02(tier, seed):
                      "inputs outside the structured families are not covered"])
 
 
+MC_SRC = ["common.c", "pin.c", "families.c", "alloc.c", "obj.c", "mc.c"]
+MC_WRAPS = WRAP_ALLOC + WRAP_PIN
+
+
+def run_mc(st, lib, source, sub, tier, seed, merged, verdict, nshards=NCPU, extra_args=()):
+    return run_dp(st, lib, [s for s in MC_SRC if s not in COMMON_SRC] + [source], sub, tier, seed, merged, verdict,
+                  wraps=MC_WRAPS, nshards=nshards, extra_args=extra_args)
+
+
+def mc_cov(merged, rule, extra=None):
+    cov = {"states": merged.states, "transitions": merged.transitions,
+           "traces_validated_against_impl": merged.traces,
+           "evaluations": merged.transitions, "distinct_nontrivial": merged.states,
+           "rule": rule, "samples": merged.samples, "notes": merged.notes}
+    if extra:
+        cov.update(extra)
+    return cov
+
+
+def check_c05(tier, seed):
+    v = Verdict("C05", tier, seed)
+    st = new_stage()
+    merged = Merged()
+    lib = mkbuild("shipped").build(st)
+    run_mc(st, lib, "h_ctr.c", "c05", tier, seed, merged, v, nshards=26)
+    closed = all(val == 1 for k, val in merged.notes.items() if k.startswith("frontier_exhausted"))
+    cov = mc_cov(merged,
+                 "BFS over CTR call histories {init, set_key|set_tweaked_key, set_tweak, set_counter, encrypt(len), second set_counter} "
+                 "on real objects of every available back end in lock step; states merged by context byte image + model state; "
+                 "every transition's output compared with in xor E(c+i) from the reference model; states = distinct canonical states, "
+                 "transitions = operations executed with oracles on (each after a full replay of its history on fresh objects)",
+                 {"builds": [lib.describe()]})
+    return v.finish("model_checking", cov,
+                    ["reference block ciphers ref/*.c; keys/tweaks/counters outside the alphabets are not covered",
+                     "stream bound 2*batch+B+1 bytes per segment (batch periodicity argument in DESIGN.md 4/C05)"],
+                    exhaustive=closed)
+
+
+def check_c06(tier, seed):
+    v = Verdict("C06", tier, seed)
+    st = new_stage()
+    merged = Merged()
+    lib = mkbuild("shipped").build(st)
+    run_mc(st, lib, "h_ctr.c", "c06", tier, seed, merged, v, nshards=26)
+    closed = all(val == 1 for k, val in merged.notes.items() if k.startswith("frontier_exhausted"))
+    cov = mc_cov(merged,
+                 "BFS over CTR call histories on one object per available back end in lock step; the C05 alphabet widened with "
+                 "key / tweaked-key / tweak changes in the middle of a stream without a counter reset, data calls before any key, "
+                 "tweak changes on a plain key schedule, calls after cleanup and the invalid-call menu; oracle: every return value "
+                 "and every output byte equal across back ends; states = distinct tuples of per-back-end context images",
+                 {"builds": [lib.describe()]})
+    return v.finish("model_checking", cov,
+                    ["back ends the host cannot execute (NEON) are not covered", "parallel-ECB part of the property: see the C07 harness run under this id (added below when built)"],
+                    exhaustive=closed)
+
+
+def check_c14(tier, seed):
+    v = Verdict("C14", tier, seed)
+    st = new_stage()
+    merged = Merged()
+    lib = mkbuild("shipped").build(st)
+    run_mc(st, lib, "h_ctr.c", "c14", tier, seed, merged, v, nshards=26)
+    closed = all(val == 1 for k, val in merged.notes.items() if k.startswith("frontier_exhausted"))
+    cov = mc_cov(merged,
+                 "BFS over valid CTR histories (zeroed handle, initialised, keyed, counter set, mid-stream, cleaned up) with every class of invalid "
+                 "call applied in every state; oracle: invalid call returns 0, handle+context byte image identical before/after, allocator slack untouched, "
+                 "no crash; valid calls return 1 and later output still matches the stream model",
+                 {"builds": [lib.describe()]})
+    return v.finish("model_checking", cov, ["void functions on a null object are demanded only where documented"], exhaustive=closed)
+
+
 REGISTRY = {
     "C01": check_c01,
     "C02": check_c02,
+    "C05": check_c05,
+    "C06": check_c06,
+    "C14": check_c14,
 }
